@@ -90,6 +90,15 @@ def transfer(I, fr, t, c, pth):
     if res.startswith('std::vec::Vec::<T>::with_capacity') or res.startswith('std::vec::Vec::<T>::new'):
         fr.storev(dest, Agg([], ('vec', 'Vec')))
         return True
+    if name in ('truncate', 'clear') and 'std::vec::Vec' in res:
+        v = fr.deref_operand(args[0])
+        n_ = fr.operand(args[1]) if name == 'truncate' else Int(0)
+        if isinstance(v, Agg) and isinstance(n_, Int):
+            fr.store_through(args[0], Agg(v.items[:n_.v], v.kind))
+            return True
+        return False
+    if name in ('reserve', 'reserve_exact', 'shrink_to_fit') and 'std::vec::Vec' in res:
+        return True
     if name == 'push' and 'std::vec::Vec' in res:
         v = fr.deref_operand(args[0])
         x = fr.operand(args[1])
@@ -240,3 +249,178 @@ def describe(got, want):
     if extra:
         out.append('unexpected terms %s' % extra[:4])
     return '; '.join(out) or 'differs'
+
+
+def rule_projective_mul(fx, rep, groups):
+    """CurveProjective::mul_assign (MSB-first double-and-add that skips leading zeros via a
+    `found_one` flag): the flag is tracked as an OR of scalar bits and branches on it are
+    if-converted using b_k * or(S) = b_k for k in S."""
+    P = Lin.atom('P')
+    want = expected()
+    n = 0
+    for g, proj, aff in groups:
+        p = fx.impl_method('CurveProjective', proj, 'mul_assign')
+        if not (p and fx.body(p)):
+            rep.fail('BITLIN', '%s:projective-mul_assign:anchor' % g, 'not found')
+            continue
+        rep.fn(p)
+        try:
+            I, res = run(fx, p, [('byref', P), scalar_value()])
+            rep.sites(I.call_sites)
+            out = res[0][2].get(1) if len(res) == 1 else None
+            ok = isinstance(out, Lin) and out == want
+            n += 1
+            rep.check(ok, 'BITLIN', '%s:projective-mul_assign' % g, 'self becomes sum_n 2^n b_n P for every 256-bit scalar (leading-zero skipping included)',
+                      'result is not [k]P: %s' % describe(out, want), fx.fn(p)['span'], construct=p)
+        except (exp.NotDerivable, exp.Budget) as e:
+            rep.fail('BITLIN', '%s:projective-mul_assign' % g, 'not derivable: %s at %s' % (e, getattr(e, 'where', None)), fx.fn(p)['span'])
+    rep.floor('BITLIN', 'projective-mul-paths', n, 2)
+
+
+def rule_wnaf_table(fx, rep):
+    """wnaf_table(table, base, w): for w = 2..8 the table is exactly the odd multiples
+    [1, 3, ..., 2^w - 1] * base (2^(w-1) entries), whatever the buffer held before."""
+    p = 'wnaf::wnaf_table'
+    if fx.body(p) is None:
+        rep.fail('BITLIN', 'wnaf_table:anchor', 'not found')
+        return
+    rep.fn(p)
+    bad = []
+    for w in range(2, 9):
+        try:
+            I, res = run(fx, p, [('byref', Agg([Lin.atom('stale0'), Lin.atom('stale1')], ('vec', 'Vec'))), Lin.atom('P'), Int(w)],)
+        except (exp.NotDerivable, exp.Budget) as e:
+            bad.append('w=%d: not derivable: %s' % (w, e))
+            continue
+        rep.sites(I.call_sites)
+        out = res[0][2].get(1) if len(res) == 1 else None
+        ok = isinstance(out, Agg) and len(out.items) == (1 << (w - 1)) and all(isinstance(x, Lin) and x.t == {'P': 2 * i + 1} for i, x in enumerate(out.items))
+        if not ok:
+            bad.append('w=%d: table is %r' % (w, out.items[:4] if isinstance(out, Agg) else out))
+    rep.check(not bad, 'BITLIN', 'wnaf_table:odd-multiples', 'for w = 2..8 and any previous buffer contents: table = [(2i+1) P for i < 2^(w-1)]', '; '.join(bad[:3]), fx.fn(p)['span'], construct=p)
+
+
+class Digit:
+    """A wNAF digit: 0, +(2m+1) or -(2m+1) with m a symbolic non-negative integer."""
+    def __init__(self, sign, m):
+        self.sign, self.m = sign, m
+
+    def __repr__(self):
+        return 'digit(%s%s)' % ('+' if self.sign > 0 else '-' if self.sign < 0 else '0', self.m)
+
+
+class HalfIdx:
+    """(2m+1)/2 = m as a table index."""
+    def __init__(self, m):
+        self.m = m
+
+
+def rule_wnaf_exp(fx, rep):
+    """wnaf_exp(table, digits) with the table contract table[m] = (2m+1) P: for every digit
+    string of length <= 3 and every sign pattern (digits symbolic), the result is
+    sum_j 2^j n_j P."""
+    import itertools
+    p = 'wnaf::wnaf_exp'
+    if fx.body(p) is None:
+        rep.fail('BITLIN', 'wnaf_exp:anchor', 'not found')
+        return
+    rep.fn(p)
+    bad = []
+    n_scen = 0
+    for L in range(0, 4):
+        for signs in itertools.product((0, 1, -1), repeat=L):
+            digits = [Digit(sg, 'm%d' % j) for j, sg in enumerate(signs)]
+
+            def hook(op, a, b):
+                if isinstance(a, Digit) and isinstance(b, Int) and b.v == 0:
+                    if op == 'Ne':
+                        return Int(int(a.sign != 0), 1)
+                    if op == 'Eq':
+                        return Int(int(a.sign == 0), 1)
+                    if op == 'Gt':
+                        return Int(int(a.sign > 0), 1)
+                    if op == 'Lt':
+                        return Int(int(a.sign < 0), 1)
+                    if op == 'Ge':
+                        return Int(int(a.sign >= 0), 1)
+                    if op == 'Le':
+                        return Int(int(a.sign <= 0), 1)
+                if isinstance(a, Digit) and b is None and op == 'Neg':
+                    return Digit(-a.sign, a.m)
+                if isinstance(a, Digit) and isinstance(b, Int) and b.v == 2 and op == 'Div' and a.sign > 0:
+                    return HalfIdx(a.m)
+                if isinstance(a, Digit) and isinstance(b, Int) and op in ('Eq', 'Ne', 'BitAnd') and a.sign != 0:
+                    # overflow / parity probes on an odd non-zero digit
+                    if op == 'Eq':
+                        return Int(0, 1)     # e.g. n == i64::MIN or n == -1 guards of checked div/neg
+                    if op == 'Ne':
+                        return Int(1, 1)
+                return None
+
+            def tr(I, fr, t, c, pth):
+                nm = c.get('name')
+                res_ = c.get('res') or c['def']
+                args = t['args']
+                if nm == 'rev' and c.get('trait') == 'std::iter::Iterator':
+                    v = fr.operand(args[0])
+                    if isinstance(v, exp.SliceIt):
+                        fr.storev(t['dest'], exp.SliceIt(list(reversed(v.items[v.pos:])), 0))
+                        return True
+                if nm == 'next' and res_.startswith('<std::iter::Rev<'):
+                    v = fr.deref_operand(args[0])
+                    if isinstance(v, exp.SliceIt):
+                        val, nit = I._iter_next(v, t['span'])
+                        fr.storev(t['dest'], val)
+                        fr.store_through(args[0], nit)
+                        return True
+                if nm == 'iter' and res_.startswith('core::slice::<impl [T]>::iter'):
+                    v = I.value_of_ref(fr, args[0])
+                    if isinstance(v, Agg):
+                        fr.storev(t['dest'], exp.SliceIt(v.items, 0))
+                        return True
+                if c.get('trait') == 'std::ops::Div' and nm == 'div':
+                    a = fr.deref_operand(args[0])
+                    b_ = fr.operand(args[1])
+                    hv = hook('Div', a, b_)
+                    if hv is not None:
+                        fr.storev(t['dest'], hv)
+                        return True
+                if c.get('trait') == 'std::ops::Neg' and nm == 'neg':
+                    a = fr.deref_operand(args[0])
+                    hv = hook('Neg', a, None)
+                    if hv is not None:
+                        fr.storev(t['dest'], hv)
+                        return True
+                return transfer(I, fr, t, c, pth)
+            I = exp.Interp(fx, 'add', extra_transfer=tr)
+            I.binop_hook = hook
+            # table lookups with HalfIdx: done through Frame projection -> patch: supply the table as a dict-like Agg
+            table = TableContract()
+            try:
+                res = I.run(p, [('byref', table), ('byref', Agg(digits))])
+            except (exp.NotDerivable, exp.Budget) as e:
+                bad.append('digits %r: not derivable: %s at %s' % (signs, e, getattr(e, 'where', None)))
+                continue
+            rep.sites(I.call_sites)
+            n_scen += 1
+            want = Lin()
+            for j, sg in enumerate(signs):
+                if sg:
+                    want = want.add(Lin({'P*m%d' % j: 2 * sg * (1 << j), 'P': sg * (1 << j)}))
+            got = res[0][1] if len(res) == 1 else None
+            if not (isinstance(got, Lin) and got == want):
+                bad.append('digits %r: result %r, expected %r' % (signs, got, want))
+    rep.check(not bad and n_scen == 40, 'BITLIN', 'wnaf_exp:signed-digit-evaluation',
+              'for every digit string of length <= 3 and every sign pattern, with symbolic odd digits and the table contract table[m] = (2m+1)P: result = sum_j 2^j n_j P',
+              '; '.join(bad[:3]), fx.fn(p)['span'], construct=p)
+
+
+class TableContract(Agg):
+    """Abstract odd-multiples table: indexing with m yields (2m+1) P."""
+    def __init__(self):
+        Agg.__init__(self, [])
+
+    def lookup_contract(self, iv):
+        if isinstance(iv, HalfIdx):
+            return Lin({'P*%s' % iv.m: 2, 'P': 1})
+        return TOP
